@@ -109,6 +109,11 @@ pub enum Dev {
     DirtyPadding,
     OffsetEdit(i8),
     DeliverTwice,
+    /// extra zero word(s) after the nested message, inside a canonical wrapper
+    InnerTrailing(u8),
+    /// dirty high-order bytes in a static word of the nested message
+    InnerDirtyWord(u8),
+    InnerDirtyPadding,
 }
 
 #[derive(Serialize, Deserialize, Clone, Debug, PartialEq, Eq, Hash)]
